@@ -591,6 +591,11 @@ class App(falcon.app.App):
 
             req_succeeded = False
 
+            # NOTE: As in the WSGI app, an error handled at this stage is
+            #   answered with an empty body; in particular, do not fall
+            #   through to a response stream that may still be set.
+            data = b''
+
         resp_status: int = resp.status_code
         default_media_type: Optional[str] = self.resp_options.default_media_type
 
